@@ -26,7 +26,7 @@ def samples(role, name, ty, custom):
     elif name == 'Origin' and role == 'dep3': alt = ['vendor', 'backport, https://example.com/c/1']
     elif name == 'Types': alt = ['deb deb-src', 'deb-src']
     elif name == 'URIs': alt = ['https://deb.debian.org/debian https://example.org/debian', 'http://example.org/x']
-    elif name == 'Format' and role == 'copyright_header': alt = []
+    elif name == 'Format' and role == 'copyright_header': alt = ['http://www.debian.org/doc/packaging-manuals/copyright-format/1.0/', 'https://www.debian.org/doc/packaging-manuals/copyright-format/1.0']   # (older spellings: carried as written)
     elif 'Relations' in inner: alt = ['a', 'a:native (<< 2~) | b [!amd64 !i386], c <a !b> <c>']
     elif 'Url' in inner: alt = ['http://example.org/', 'https://example.com/a/b?q=1#frag']
     elif 'ParsedVcs' in inner: alt = ['https://salsa.debian.org/x/y.git', 'https://salsa.debian.org/x/y.git -b main']
